@@ -130,6 +130,7 @@ var (
 
 func fatal2(f string, a ...any) {
 	fmt.Fprintf(os.Stderr, "zcheck: "+f+"\n", a...)
+	removeScratch()
 	os.Exit(2)
 }
 
@@ -199,6 +200,39 @@ func build(workDir string, race bool) string {
 	return bin
 }
 
+// scratchDir is where workloads create their per-run files (C19's targets,
+// C06's child-process files): a private directory on the memory file system
+// when there is one (an order of magnitude faster than the disk for the
+// thousands of short-lived files of a batch), else the run's work directory.
+// It is removed together with the work directory when the check ends.
+var scratchOnce struct {
+	done bool
+	dir  string
+}
+
+func scratchDir(workDir string) string {
+	if scratchOnce.done {
+		return scratchOnce.dir
+	}
+	scratchOnce.done, scratchOnce.dir = true, workDir
+	if d, err := os.MkdirTemp("/dev/shm", "zsim-scratch-"); err == nil {
+		if f, err := os.CreateTemp(d, "probe"); err == nil {
+			f.Close()
+			os.Remove(f.Name())
+			scratchOnce.dir = d
+		} else {
+			os.Remove(d)
+		}
+	}
+	return scratchOnce.dir
+}
+
+func removeScratch() {
+	if scratchOnce.done && strings.HasPrefix(scratchOnce.dir, "/dev/shm/") {
+		os.RemoveAll(scratchOnce.dir)
+	}
+}
+
 func loadFindings() []finding {
 	b, err := os.ReadFile(filepath.Join(verifDir, "known_findings.json"))
 	if err != nil {
@@ -219,13 +253,17 @@ func main() {
 		repoDir = v
 	}
 	if len(os.Args) >= 2 && os.Args[1] == "selftest-determinism" {
-		os.Exit(selftestDeterminism(os.Args[2:]))
+		code := selftestDeterminism(os.Args[2:])
+		removeScratch()
+		os.Exit(code)
 	}
 	if len(os.Args) < 3 {
 		fatal2("usage: zcheck <property> quick|thorough | zcheck <property> --replay <file>")
 	}
 	if os.Args[1] == "selftest-determinism" {
-		os.Exit(selftestDeterminism(os.Args[2:]))
+		code := selftestDeterminism(os.Args[2:])
+		removeScratch()
+		os.Exit(code)
 	}
 	id := os.Args[1]
 	pc, ok := props[id]
@@ -237,6 +275,7 @@ func main() {
 	defer os.RemoveAll(workDir)
 	code := realMain(id, pc, workDir)
 	os.RemoveAll(workDir)
+	removeScratch()
 	os.Exit(code)
 }
 
@@ -521,7 +560,7 @@ func propMeta(bin, id string) meta {
 func replayOnce(bin, id, path, workDir string) (string, bool) {
 	cmd := exec.Command(bin, "-test.run", "TestWorker", "-test.timeout", "120s")
 	raceLog := filepath.Join(workDir, fmt.Sprintf("racereplay-%d", time.Now().UnixNano()))
-	cmd.Env = append(os.Environ(), "ZSIM_PROP="+id, "ZSIM_REPLAY="+path, "GOMAXPROCS=1", "ZSIM_TMP="+workDir, "ZSIM_KNOWN_FILE="+filepath.Join(verifDir, "known_findings.json"), "GORACE=log_path="+raceLog+" halt_on_error=1 exitcode=66")
+	cmd.Env = append(os.Environ(), "ZSIM_PROP="+id, "ZSIM_REPLAY="+path, "GOMAXPROCS=1", "ZSIM_TMP="+scratchDir(workDir), "ZSIM_KNOWN_FILE="+filepath.Join(verifDir, "known_findings.json"), "GORACE=log_path="+raceLog+" halt_on_error=1 exitcode=66")
 	var out bytes.Buffer
 	cmd.Stdout, cmd.Stderr = &out, &out
 	err := cmd.Run()
@@ -623,7 +662,7 @@ func runBase(bin, id, tier string, base uint64, tc tierCfg, nw int, workDir stri
 					"ZSIM_BUDGET_MS="+strconv.FormatInt(remain.Milliseconds(), 10),
 					"ZSIM_OUT="+outPath, "GOMAXPROCS=1",
 					"ZSIM_KNOWN_FILE="+filepath.Join(verifDir, "known_findings.json"),
-					"ZSIM_TMP="+workDir,
+					"ZSIM_TMP="+scratchDir(workDir),
 				)
 				progPath := outPath + ".progress"
 				if race {
@@ -752,7 +791,7 @@ func selftestDeterminism(ids []string) int {
 				logPath := filepath.Join(workDir, fmt.Sprintf("ev-%d-%d.log", j.procs, j.rep))
 				cmd := exec.Command(bin, "-test.run", "TestWorker", "-test.timeout", "0")
 				cmd.Env = append(os.Environ(), "ZSIM_PROP="+id, "ZSIM_TIER=quick", "ZSIM_BASE=77", "ZSIM_FROM=0", "ZSIM_TO="+strconv.FormatInt(n, 10),
-					"ZSIM_EVENTLOG="+logPath, "ZSIM_OUT="+logPath+".json", "ZSIM_MAXVIOL=1000000", "ZSIM_TMP="+workDir,
+					"ZSIM_EVENTLOG="+logPath, "ZSIM_OUT="+logPath+".json", "ZSIM_MAXVIOL=1000000", "ZSIM_TMP="+scratchDir(workDir),
 					"ZSIM_KNOWN_FILE="+filepath.Join(verifDir, "known_findings.json"),
 					"GOMAXPROCS="+strconv.Itoa(j.procs), "GORACE=halt_on_error=0")
 				cmd.Run()
